@@ -31,6 +31,9 @@ impl From<io::Error> for Error {
     }
 }
 
+/// Maximum size of a message head (request/status line and headers)
+const MAX_HEAD_SIZE: usize = 4096;
+
 pub struct DecodedMessage {
     pub line: MessageLine,
     pub headers: Headers,
@@ -73,13 +76,6 @@ impl Decoder for StreamingDecoder {
             }
         }
 
-        if src.len() > 4096 {
-            // do not allow a message head larger than that
-            src.clear();
-
-            return Err(Error::MessageTooLarge);
-        }
-
         let mut parser = PullParser::new(src, self.head_progress);
 
         for line in &mut parser {
@@ -111,6 +107,13 @@ impl Decoder for StreamingDecoder {
                 }
             } else {
                 // cannot parse complete message head yet
+                if src.len() > MAX_HEAD_SIZE {
+                    // do not allow a message head larger than that
+                    src.clear();
+
+                    return Err(Error::MessageTooLarge);
+                }
+
                 self.head_progress = parser.progress();
                 return Ok(None);
             }
@@ -118,6 +121,12 @@ impl Decoder for StreamingDecoder {
 
         // parser completed without errors
         // message head should be complete
+
+        if parser.head_end() > MAX_HEAD_SIZE {
+            src.clear();
+
+            return Err(Error::MessageTooLarge);
+        }
 
         // Calculate the complete message size
         let content_len = self.content_len;
